@@ -77,8 +77,8 @@ pub fn spec_code(set: u8) -> u8 {
 // NOTE: all flags live in ONE static struct with a non-zero magic field. Separate `static mut X: usize = 0`
 // items were observed to alias, under Kani 0.68, with promoted constants of the same bytes (writing 1 to
 // such a static turned the shared zero-capacity constant of `Vec::new()` into 1).
-struct Stubs { magic: u64, io: bool, save_calls: usize, rec_distance: bool, exp_constant: f64, exp_rows: usize, provider: bool, writer_off: bool, counts_lemma: bool, entries: [(u64, u8); 32] }
-static mut ST: Stubs = Stubs { magic: 0x5ca1_ab1e_0dd_ba11, io: false, save_calls: 0, rec_distance: false, exp_constant: -1.0, exp_rows: 0, provider: false, writer_off: false, counts_lemma: false, entries: [(7, b'A'); 32] };
+struct Stubs { magic: u64, io: bool, save_calls: usize, rec_distance: bool, exp_constant: f64, exp_rows: usize, provider: bool, writer_off: bool, counts_lemma: bool, entries: [(u64, u8); 32], aln_on: bool, aln: [[u8; 4]; 4] }
+static mut ST: Stubs = Stubs { magic: 0x5ca1_ab1e_0dd_ba11, io: false, save_calls: 0, rec_distance: false, exp_constant: -1.0, exp_rows: 0, provider: false, writer_off: false, counts_lemma: false, entries: [(7, b'A'); 32], aln_on: false, aln: [[b'-'; 4]; 4] };
 pub fn stub_io(on: bool) { unsafe { ST.io = on; ST.save_calls = 0; } }
 pub fn stub_io_active() -> bool { unsafe { ST.magic == 0x5ca1_ab1e_0dd_ba11 && ST.io } }
 pub fn record_save() { unsafe { ST.save_calls += 1; } }
@@ -109,3 +109,15 @@ pub fn writer_stub_active() -> bool { unsafe { ST.writer_off } }
 /// such an array may switch the recount off to keep chained filter passes tractable (C14.wrap only).
 pub fn counts_exact_lemma(on: bool) { unsafe { ST.counts_lemma = on; } }
 pub fn counts_exact_lemma_active() -> bool { unsafe { ST.counts_lemma } }
+/// Alignment provider (C05.vcf only): `AlnWriter::write_split_kmer` only remembers the tag byte it is given and
+/// `AlnWriter::finalise` copies the alignment registered for that tag into the writer's output, so that
+/// `RefSka::write_vcf` is driven with an arbitrary mapped alignment (what the real writer produces is C04's subject).
+/// The tag (not the call order) identifies the sample, so the stub behaves the same under real rayon in the replay.
+pub fn aln_provider(on: bool) { unsafe { ST.aln_on = on; } }
+pub fn aln_provider_active() -> bool { unsafe { ST.aln_on } }
+pub fn provide_aln_cell(sample: usize, pos: usize, c: u8) { unsafe { ST.aln[sample][pos] = c; } }
+pub fn provided_alignment(tag: usize, out: &mut Vec<u8>) {
+    let s = if tag >= b'a' as usize && tag < b'a' as usize + 4 { tag - b'a' as usize } else { 0 };
+    let mut i = 0;
+    while i < crate::verif_models::bounds::RCAP && i < 4 { if i < out.len() { unsafe { out[i] = ST.aln[s][i]; } } i += 1; }
+}
